@@ -204,7 +204,7 @@ func (r *runner) run() {
 			for j < len(steps) && steps[j].Block == st.Block {
 				j++
 			}
-			if steps[i].Variant == "big" {
+			if steps[i].Variant == "big" || j-i > 5 {
 				r.runBigBlock(steps[i:j])
 			} else {
 				r.runBlock(steps[i:j])
